@@ -55,6 +55,7 @@ type requestSnap struct {
 	completed   bool
 	completedOK bool
 	preferIdle  bool
+	digest      *remoteexecution.Digest // action digest of a reported executing state
 	afterSD     bool
 	desc        string
 }
@@ -141,7 +142,7 @@ func (a *activation) String() string {
 	case a.entered:
 		st = "running"
 	}
-	return fmt.Sprintf("#%d(%s..,%s)", a.n, a.hash[56:], st)
+	return fmt.Sprintf("task#%d(%s..,%s)", a.n, a.hash[56:], st)
 }
 
 // ---------------------------------------------------------------------------
@@ -355,6 +356,7 @@ func (o *oracle) onRequest(ctx context.Context, req *remoteworker.SynchronizeReq
 	case *remoteworker.CurrentState_Executing_:
 		snap.executing = true
 		ex := st.Executing
+		snap.digest = ex.GetActionDigest()
 		cur := o.cur
 		if cur == nil {
 			w.violate("C08/reports-executing-while-idle", fmt.Sprintf("request %d reports %s, but the scheduler's last instruction was to be idle (or it never gave work)", snap.seq, snap.desc))
@@ -367,11 +369,21 @@ func (o *oracle) onRequest(ctx context.Context, req *remoteworker.SynchronizeReq
 		if completed, ok := ex.ExecutionState.(*remoteworker.CurrentState_Executing_Completed); ok {
 			snap.completed = true
 			snap.completedOK = status.ErrorProto(completed.Completed.GetStatus()) == nil
+			var other *activation
+			for _, a := range o.acts {
+				if a != cur && a.resp != nil && a.resp == completed.Completed {
+					other = a
+				}
+			}
 			switch {
+			case other != nil:
+				w.violate("C08/completion-of-another-execution", fmt.Sprintf("request %d reports %s as the completion of task %s, but that response was returned by the execution of task %s (same digest or not, the scheduler handed %s out as a new task)", snap.seq, snap.desc, cur, other, cur))
+			case !cur.entered:
+				w.violate("C08/completion-of-task-never-run", fmt.Sprintf("request %d reports %s although the executor was never started for task %s", snap.seq, snap.desc, cur))
 			case !cur.returned:
 				w.violate("C08/completion-before-finish", fmt.Sprintf("request %d reports %s although %s has not returned", snap.seq, snap.desc, cur))
 			case completed.Completed != cur.resp:
-				w.violate("C08/foreign-completion", fmt.Sprintf("request %d reports completion %q for %s, whose executor returned %q", snap.seq, completed.Completed.GetMessage(), cur, cur.resp.GetMessage()))
+				w.violate("C08/completion-of-another-execution", fmt.Sprintf("request %d reports completion %q for %s, whose executor returned %q", snap.seq, completed.Completed.GetMessage(), cur, cur.resp.GetMessage()))
 			default:
 				if !cur.completedReported {
 					k.Probe(map[bool]string{true: "completion-reported-ok", false: "completion-reported-non-ok"}[snap.completedOK])
@@ -472,6 +484,14 @@ func (o *oracle) onOutcome(snap requestSnap, out outcome) {
 		o.lastNSA = out.nsa
 		switch out.reply {
 		case replyExecute:
+			if out.sameDigest {
+				switch {
+				case snap.completed:
+					k.Probe("same-digest-handed-out-again-after-its-completion")
+				default:
+					k.Probe("same-digest-handed-out-again-while-running")
+				}
+			}
 			o.supersede(snap, "execute")
 			act := &activation{n: len(o.acts) + 1, hash: out.exec.ActionDigest.Hash, request: out.exec, updates: map[*remoteworker.CurrentState_Executing]int{}, lastReported: -1}
 			o.acts = append(o.acts, act)
@@ -498,6 +518,13 @@ func (o *oracle) onOutcome(snap requestSnap, out outcome) {
 	desc := o.lastOutcome
 	if out.kind != outValid && out.kind != outCtxError {
 		desc += "(" + out.reply.String() + ")"
+	}
+	if out.exec != nil {
+		h := out.exec.GetActionDigest().GetHash()
+		desc += fmt.Sprintf(" digest=..%s", h[len(h)-8:])
+		if out.sameDigest {
+			desc += " (NEW task for the digest just reported)"
+		}
 	}
 	if out.kind != outCtxError {
 		desc += fmt.Sprintf(" next_sync=+%s", out.nsa.Sub(startTime))
